@@ -565,6 +565,40 @@ def reduceRight (callable : Bool) (args : List Val) : M σ Ret := fun s =>
           else .ok accumulator s') 0 count accumulator
         pure (Ret.val acc)) s
 
+/-- §15.4.4.11 SortCompare on two *present* values x, y (steps 5–18; the comparefn is given by the sign of
+    its result, `none` = compare ToString(x), ToString(y) as strings) -/
+def sortCompareVals (cmp : SortCmp) (x y : Val) : Int :=
+  if x = .undef ∧ y = .undef then 0                          -- 10
+  else if x = .undef then 1                                   -- 11
+  else if y = .undef then -1                                  -- 12
+  else match cmp with
+    | some f => f x y                                         -- 13
+    | none =>
+      let xs := E.ts x                                        -- 14
+      let ys := E.ts y                                        -- 15
+      if bytesLt xs ys then -1 else if bytesLt ys xs then 1 else 0   -- 16–18
+
+def insertBy (le : Val → Val → Bool) (x : Val) : List Val → List Val
+  | [] => [x]
+  | y :: r => if le x y then x :: y :: r else y :: insertBy le x r
+
+/-- §15.4.4.11: the arrangement the postcondition forces when SortCompare is a total order on the elements that
+    only identifies identical values: present values in SortCompare order (undefined last among them), then the
+    absent positions.  (Where the standard leaves the result implementation-defined — inherited index properties
+    under holes, non-extensible receivers, inconsistent comparefn — this function is not the specification;
+    the generators stay outside those cases.) -/
+def sort (callable : Bool) (cmp : SortCmp) : M σ Ret := fun s =>
+  let len := O.len s
+  if !callable then .err .type s else
+  let present : List Val := (List.range len).filterMap fun k => if O.has s k then some (O.get s k) else none
+  let sorted : List Val := present.foldr (insertBy fun x y => decide (sortCompareVals E cmp x y ≤ 0)) []
+  let target : List (Option Val) := sorted.map some ++ List.replicate (len - sorted.length) none
+  (do
+    forUp (fun k => match target.getD k none with
+      | some v => O.put k v
+      | none => O.del k) 0 len
+    pure (Ret.val .recv)) s
+
 end Methods
 
 /-- the abstract operations of §15.4.4 on an object of the store -/
